@@ -14,3 +14,39 @@ Print Assumptions C11_fold_refuses_unsupported.
 Theorem C11_supported_iff_compiles : forall t, spec_supported (S (tsize t)) t = true <-> cc_type t = None.
 Proof. exact supported_compiles. Qed.
 Print Assumptions C11_supported_iff_compiles.
+
+(* The identity, direct route (Fold's events fed to the unfolder of a zero target of the same
+   type).  PARTIAL: proved for (a) every type built from bool, string, the numeric kinds,
+   pointers, slices and string-keyed maps of these, and named versions of them ([simple]), and
+   (b) every struct whose fields have such types, with any combination of field names, "-",
+   omitempty and unexported fields, but without inline/squash ([flat_fields]).  For every
+   well-typed value ([wt]: numbers in range, map listing sorted) of such a type that Fold
+   accepts, unfolding completes with a value deeply equal to the original under the documented
+   view (omitted fields zero, nil = empty, pointer to nil = nil).
+   MISSING: nested structs, inline/squash, interface{}-typed fields and elements - decided by
+   the run-time part only (kind rtgo, routes direct/json/ubj/cbor). *)
+From SF Require Gotype.Conv Gotype.Unfold Gotype.UnfoldSpec Gotype.UnfoldProofs.
+Import SF.Gotype.Unfold SF.Gotype.UnfoldSpec SF.Gotype.UnfoldProofs.
+Theorem C11_direct_partial : forall T v evs,
+  simple T = true -> wt T v = true -> fold_value T v = (evs, None) ->
+  exists v', unfold_value T (zero_of T) evs = UDone v' /\
+             forall F, (ftsize T < F)%nat -> deep_eq F T (omit_view F T v) v' = true.
+Proof. exact C11_direct_partial'. Qed.
+Print Assumptions C11_direct_partial.
+
+Theorem C11_direct_struct_partial : forall fs vs evs,
+  flat_fields fs = true -> wt_fields fs vs = true ->
+  fold_value (TStruct fs) (GStruct vs) = (evs, None) ->
+  exists v', unfold_value (TStruct fs) (zero_of (TStruct fs)) evs = UDone v' /\
+             forall F, (ftsize (TStruct fs) < F)%nat ->
+               deep_eq F (TStruct fs) (omit_view F (TStruct fs) (GStruct vs)) v' = true.
+Proof. exact C11_direct_struct_partial'. Qed.
+Print Assumptions C11_direct_struct_partial.
+
+(* non-vacuity: a struct with names, omitempty (empty and not), "-", an unexported field,
+   pointers, slices and maps meets the hypotheses, folds and unfolds as stated *)
+Theorem C11_struct_instance :
+  flat_fields ex_fs = true /\ wt_fields ex_fs ex_vs = true /\
+  snd (fold_value (TStruct ex_fs) (GStruct ex_vs)) = None.
+Proof. pose proof C11_struct_example as (A & B & C & _). rewrite C. auto. Qed.
+Print Assumptions C11_struct_instance.
